@@ -31,6 +31,13 @@ def gtransformKind (c : Json) : Json :=
   let rm := rmOfJson st
   resultOf (Transformer.genericTransform (optsOf (c.getD "opts")) rm (c.getD "info") (opRefs st "pub") (opRefs st "unpub"))
 
+/-- kind `tinfo` (C18, C17): `docutil.GetTransformationInfoForPublished / ForUnpublished` -/
+def tinfoKind (c : Json) : Json :=
+  if ((c.get? "published").bind Json.bool?).getD false then
+    .obj [("info", Did.publishedInfo (getStr c "ns") (getStr c "id") (getStr c "suffix") (getStr c "cr") (getStrList c "er"))]
+  else
+    .obj [("info", Did.unpublishedInfoFull (getStr c "ns") (getStr c "domain") (getStr c "label") (getStr c "suffix") (getStr c "jcs"))]
+
 /-- kind `resolve` (C17) -/
 def resolveKind (c : Json) : Json :=
   resultOf (Did.resolve hashFam (oraclesOf c) (getStr c "ns") (getStr c "did"))
